@@ -42,7 +42,7 @@ PLAN = {
  "C08s_m4": [("C08", ["--only", "p256"])],
  "C09s_m1": [("C11", ["--only", "zz"])], "C09s_m2": [("C11", ["--only", "zz"])], "C09s_m3": [("C09", ["--only", "jq255s"])], "C09s_m4": [("C09", ["--only", "gls254"])],
  "C17_m1": [("C17", ["--only", "step"])],
- "C01r_m1": [("C01", ["--only", "sc25519"]), ("C12", [])], "C01r_m2": [("C01", ["--only", "gf25519"])], "C01r_m3": [("C01", ["--only", "gfsecp256k1"])],
+ "C01r_m1": [("C01", [])], "C01r_m2": [("C01", ["--only", "gf25519"])], "C01r_m3": [("C01", ["--only", "gfsecp256k1"])],
  "C01r_m4": [("C01", ["--only", "gf448"]), ("C14", [])],
  "C04r_m1": [("C11", ["--only", "zz"])], "C04r_m2": [("C03", [])], "C04r_m3": [("C11", [])], "C04r_m4": [("C03", [])],
  "C05r_m1": [("C05", ["--only", "scsecp256k1"]), ("C05", ["--only", "sc25519"])], "C05r_m2": [("C05", ["--only", "gf448"])],
